@@ -5,6 +5,7 @@ package main
 import (
 	"fmt"
 	"go/token"
+	"go/types"
 	"strings"
 
 	"golang.org/x/tools/go/ssa"
@@ -733,6 +734,7 @@ func ruleWR3(c *Ctx) {
 		fn := c.Name(f)
 		pos := c.Pos(e.Call.Pos())
 		construct := fmt.Sprintf("append-handle#%d", i+1)
+		c.appendAtMostOneEvent(e, fn, construct+"|at-most-one-event", pos)
 		cv, ok := e.Call.(*ssa.Call)
 		if !ok {
 			c.bad(fn, construct, pos, "append open is deferred")
@@ -1496,4 +1498,88 @@ func (c *Ctx) scannerConstructorsOf(rd *ssa.Function) []*ssa.Function {
 		}
 	}
 	return out
+}
+
+// appendAtMostOneEvent (a clause of WR3): one Write call is not one write(2). On a full file system, at a file-size
+// limit, the kernel stores a prefix of the buffer and os.File.Write issues a second system call for the rest, which
+// fails - or the process is killed in between. A complete first event of a longer batch (the claim of claim+state, some
+// tombstones of a prune) is then durable without the rest: the command failed, or died, and left half of itself. So
+// the in-place append is reachable only for batches of at most one event: the O_APPEND open (or the call of the helper
+// that holds it, up to three single-caller hops) is passed only on an edge where len(events) <= 1 is known
+// (the false edge of `len(events) > 1`, the true edge of `len(events) <= 1`, `< 2`, `== 1`, `== 0`).
+func (c *Ctx) appendAtMostOneEvent(e Effect, fn, construct, pos string) {
+	f := e.Fn
+	var site ssa.Instruction = e.Call
+	var events ssa.Value
+	eventsParam := func(g *ssa.Function) ssa.Value {
+		for _, prm := range g.Params {
+			if sl, ok := prm.Type().Underlying().(*types.Slice); ok && namedTypeName(sl.Elem()) == "ergo.Event" {
+				return prm
+			}
+		}
+		return nil
+	}
+	// the open may sit in a helper that does not see the batch (openLogFile(path)): the batch is the []Event
+	// parameter of the nearest single caller up the chain
+	for hop := 0; hop < 3 && eventsParam(f) == nil && f.Parent() == nil && len(c.callers[f]) == 1; hop++ {
+		site = c.callers[f][0].Call
+		f = c.callers[f][0].Fn
+	}
+	events = eventsParam(f)
+	if events == nil {
+		c.unk(fn, construct, pos, "the batch of events the append primitive writes was not identified (no []Event parameter)")
+		return
+	}
+	for hop := 0; hop < 4; hop++ {
+		ev := events
+		pass := edgesWhere(f, func(a Atom, holds bool) bool {
+			if len(a.Env) != 0 {
+				return false
+			}
+			cl, _ := callOf(a.X)
+			if cl == nil || calleeFullName(&cl.Call) != "builtin len" || len(cl.Call.Args) != 1 || resolve(cl.Call.Args[0]) != resolve(ev) {
+				return false
+			}
+			switch a.Kind {
+			case "const":
+				k, ok := constInt(a.C)
+				return ok && holds && (k == 0 || k == 1)
+			case "cmp":
+				k, ok := constInt(a.Y)
+				if !ok {
+					return false
+				}
+				switch a.Op {
+				case token.GTR:
+					return !holds && k <= 1
+				case token.GEQ:
+					return !holds && k <= 2
+				case token.LEQ:
+					return holds && k <= 1
+				case token.LSS:
+					return holds && k <= 2
+				}
+			}
+			return false
+		})
+		if mustPassEdges(f, site.Block(), pass) {
+			c.ok(fn, construct, pos, "the in-place append is reached only with at most one event; longer batches take the temp-file + rename path")
+			return
+		}
+		if f.Parent() != nil || len(c.callers[f]) != 1 {
+			break
+		}
+		cs := c.callers[f][0]
+		idx := -1
+		if prm, ok := events.(*ssa.Parameter); ok && prm.Parent() == f {
+			idx = paramIndex(prm)
+		}
+		if idx < 0 || idx >= len(cs.Call.Common().Args) {
+			break
+		}
+		events = cs.Call.Common().Args[idx]
+		site = cs.Call
+		f = cs.Fn
+	}
+	c.bad(fn, construct, pos, "a batch of several events can be appended in place: one Write call is not one write(2) - on a full disk or at a file-size limit the kernel stores a prefix and the rest fails (or the process dies in between), so a complete first event of the batch (a claim without its state, an epic's tombstone without its child's) stays in the log of a command that failed")
 }
